@@ -16,12 +16,13 @@ WORKLOADS = ["h_put", "h_putc", "h_put16", "h_linked", "h_linkedc", "h_update", 
              "v_write", "v_update", "v_read", "sd_write", "sd_chunk", "sd_update", "sd_read", "sd_cread",
              "gr_write", "gr_read", "an_write", "an_read",
              "sd_dims", "sd_inq", "sd_cinq", "h_special", "h_inq", "v_attr", "v_inq", "v_inq1", "gr_more", "gr_inq",
-             "gr_inq1"]
+             "gr_inq1", "sd_scalar", "sd_sread", "nc_write", "nc_update", "nc_read", "h_append", "v_append", "sd_append"]
 # workloads that write: repeated with DD caching switched off (variant bit 2: every descriptor update and every new DD
 # block is written through at once -- code the default configuration never runs) and, sampled, with a program that
 # ignores failures and goes on issuing calls (variant bit 4)
 WRITE_WL = ["h_put", "h_putc", "h_put16", "h_linked", "h_linkedc", "h_update", "h_updatec", "v_write", "v_update",
-            "sd_write", "sd_chunk", "sd_update", "gr_write", "an_write", "sd_dims", "h_special", "v_attr", "gr_more"]
+            "sd_write", "sd_chunk", "sd_update", "gr_write", "an_write", "sd_dims", "h_special", "v_attr", "gr_more",
+            "sd_scalar", "nc_write", "nc_update", "h_append", "v_append", "sd_append"]
 FN_SCEN = {"plain": ["Hclose", "HIsync", "Hsync", "HTPsync", "HIextend_file", "HP_write 7", "HPseek 10", "HPseekcur"],
            "nocache": ["Hclose", "HIsync", "HP_write 3", "HPseek 0"],
            "cache": ["Hclose", "HIsync", "Hsync", "HTPsync", "HIextend_file", "HP_write 1"],
@@ -37,16 +38,16 @@ FN_SCEN = {"plain": ["Hclose", "HIsync", "Hsync", "HTPsync", "HIextend_file", "H
            "ncfull2": ["HTInew_dd_block", "HTIupdate_dd 1"],
            "cfull2": ["HTInew_dd_block", "Hclose"]}
 
-RULE = ("31 workload programs (20 of the first round + dimension/special-element/inquiry workloads; H elements incl. linked blocks, DD-block overflow, cache on/off, update and read of "
+RULE = ("39 workload programs (20 of the first round + dimension/special-element/inquiry workloads + rank-0 data sets, the netCDF-2 calls on an HDF file, append-only sessions; H elements incl. linked blocks, DD-block overflow, cache on/off, update and read of "
         "existing files; Vdata/Vgroup write, update, read; SD write incl. unlimited, chunked, chunked+deflate, RLE, "
         "deflate, update, read; GR write incl. palette and deflate, read; AN write, read); for each, the fault-free run "
         "counts the stdio calls (fopen/fread/fwrite/fseek/ftell/fflush/fclose) and then EVERY index k is made to fail, "
         "once as a single fault and once sticky (k and all later calls), transfers of failing fread/fwrite = nothing "
         "(errno EIO); a PRNG-chosen (VERIF_SEED) third of the indices (thorough: all) is repeated with strict-prefix "
         "transfers (errno ENOSPC), and half of them (thorough: all, gaps 1,2,3,5,8,13,21) with a second independent single "
-        "fault at index k+gap. The 18 writing workloads are run a second time in full with DD caching switched off "
+        "fault at index k+gap. The 24 writing workloads are run a second time in full with DD caching switched off "
         "(Hcache(CACHE_ALL_FILES, FALSE): descriptor updates and new DD blocks written through), and for half of their "
-        "indices (thorough: all) with a program that ignores failures and issues every remaining call. Each run is a child process under ASan/UBSan with a 20 s watchdog; recorded: every "
+        "indices (thorough: all) with a program that ignores failures and issues every remaining call. Each run is a child process under ASan/UBSan with a 3 s time limit (a hung job is a violation; a harness stops after 3 hung jobs); recorded: every "
         "API return value, exit status, final file bytes and a hash of all data read, compared with the fault-free "
         "run. Function level: 14 prepared file records x up to 8 L1 functions x every fault index x single/sticky. "
         "A case is non-trivial when the injected fault actually hit (nfaults > 0); distinct by (workload, mode, k, "
@@ -96,9 +97,11 @@ def run_jobs(ctx, exe, jobs, tag):
         os.makedirs(wd, exist_ok=True)
         jf = os.path.join(wd, "jobs.txt")
         open(jf, "w").write("\n".join(chunks[i]) + "\n")
-        rc, out = vc.sh([exe, wd, jf], timeout=3000, env=vc.HARNESS_ENV)
+        # every job has its own 3 s limit inside the harness and a harness stops after 3 hung jobs; this outer limit
+        # only guards against a harness that itself gets stuck
+        rc, out = vc.sh([exe, wd, jf], timeout=60 + len(chunks[i]) // 20, env=vc.HARNESS_ENV)
         shutil.rmtree(wd, ignore_errors=True)
-        return [l for l in out.splitlines() if re.match(r"^\d+ (wl=|fn )", l)]
+        return [l for l in out.splitlines() if re.match(r"^\d+ (wl=|fn |skipped-after-hangs)", l)]
     with ThreadPoolExecutor(NPAR) as ex:
         outs = list(ex.map(one, range(NPAR)))
     res = [None] * len(jobs)
@@ -196,6 +199,9 @@ def run(ctx):
                 ctx.violation("harness produced no result for job " + job, job, found=True)
                 nviol += 1
             continue
+        if " skipped-after-hangs " in l:
+            stats["skipped_after_hangs"] = stats.get("skipped_after_hangs", 0) + 1
+            continue
         d = fields(l)
         vt = v.split()
         verdict = vt[2] if len(vt) > 2 else "?"
@@ -230,7 +236,8 @@ def run(ctx):
             nviol += 1
             what = ("silent: every API call incl. the final close reported success but the %s differs from the fault-free run"
                     % ("file" if d["same"] != "1" else "data read")) if verdict == "Silent" else \
-                   "unsafe: the process ended with status %s" % d["status"]
+                   ("hang: the job was still running after its time limit (a fault-free job takes milliseconds)"
+                    if d["status"] == "timeout" else "unsafe: the process ended with status %s" % d["status"])
             txt = ["# C16 replay: one fault-injection job  (<workload> <mode s=single|t=sticky> <k> <variant>)",
                    "# run: bin/check C16 --replay <this file>",
                    job,
@@ -263,6 +270,9 @@ def run(ctx):
     fstat = {"jobs": len(fjobs), "mismatches": 0, "returned_fail": 0, "faults_hit": 0, "functions": {}}
     for job, l, m in zip(fjobs, fout, fm):
         if l is None:
+            continue
+        if " skipped-after-hangs " in l:
+            fstat["skipped_after_hangs"] = fstat.get("skipped_after_hangs", 0) + 1
             continue
         d = fields(l)
         mt = m.split()
